@@ -91,6 +91,14 @@ class DirAdapter:
             except Exception:
                 pass          # the spec's `gets` holds the readable keys only
         assert len(c) == len(c.keys())
+        try:
+            via_items = {}
+            for k, v in c.items():
+                via_items[dkey_tok(k)] = dval_tok(v)
+        except Exception:
+            via_items = None          # a listed key that is not readable ends the generator (see NoKeyValidation)
+        if via_items is not None and via_items != gets:
+            gets = {"!items() disagrees with []": via_items}
         return {"made": True, "st": st, "keys": keys, "gets": gets}
 
     def observe(self):
